@@ -62,6 +62,10 @@ func catalogCheck(args []string) (any, error) {
 			Ok  bool
 			Out string
 		} `json:"sql"`
+		Regex []struct {
+			P, S, R, Out string
+			Ok           bool
+		} `json:"regex"`
 	}
 	if err := json.Unmarshal(raw, &c); err != nil {
 		return nil, err
@@ -173,6 +177,19 @@ func catalogCheck(args []string) (any, error) {
 		}
 		if got := time.Unix(0, v*u).UTC().Format(lay); got != d.Out {
 			bad = append(bad, fmt.Sprintf("datetime %v: standard library %q, catalog %q", d, got, d.Out))
+		}
+	}
+	for _, x := range c.Regex {
+		n++
+		re, err := regexp.Compile(x.P)
+		if (err == nil) != x.Ok {
+			bad = append(bad, fmt.Sprintf("regex %q: compiles=%v, catalog ok=%v", x.P, err == nil, x.Ok))
+			continue
+		}
+		if err == nil {
+			if got := re.ReplaceAllString(x.S, x.R); got != x.Out {
+				bad = append(bad, fmt.Sprintf("regex %q on %q with %q: engine %q, catalog %q", x.P, x.S, x.R, got, x.Out))
+			}
 		}
 	}
 	for _, q := range c.SQL {
